@@ -272,6 +272,7 @@ type Collector struct {
 	StartErr error
 	CloseErr error
 	OnTick   func()
+	OnClose  func() // gate, called on entry to Close
 }
 
 // Start implements stun.Collector.
@@ -289,6 +290,9 @@ func (c *Collector) Start(_ time.Duration, f func(now time.Time)) error {
 
 // Close implements stun.Collector.
 func (c *Collector) Close() error {
+	if c.OnClose != nil {
+		c.OnClose()
+	}
 	c.run.Lock()
 	c.mu.Lock()
 	c.Closed++
@@ -450,6 +454,7 @@ func (w *World) Release() {
 	w.Client = nil
 	w.Conn.AfterWrite, w.Conn.OnWrite, w.Conn.OnRead, w.Conn.OnClose = nil, nil, nil, nil
 	w.Agent.Before, w.Agent.After = nil, nil
+	w.Coll.OnClose, w.Coll.OnTick = nil, nil
 	w.Coll.mu.Lock()
 	w.Coll.f = nil
 	w.Coll.mu.Unlock()
